@@ -167,6 +167,20 @@ func (ex *Exec) call(v ssa.Value, cc *ssa.CallCommon, instr ssa.Instruction) {
 		}
 	}
 	_ = vc
+	// error-propagation ghost: remember that a matching callee failed
+	if ex.propRe != nil && len(rets) > 0 && ex.propRe.MatchString(name) {
+		last := rets[len(rets)-1]
+		if last.Ty != nil && types.TypeString(last.Ty, nil) == "error" {
+			cur := "false"
+			if g, ok := ex.cur.ghosts["$suberr"]; ok {
+				cur = g.T
+			}
+			n := ex.vc.define("ghost.suberr", sBool, fmt.Sprintf("(or %s (not (iface_isnil %s)))", cur, last.T))
+			ex.cur.ghosts = cloneGhosts(ex.cur.ghosts)
+			ex.cur.ghosts["$suberr"] = TV{T: n, Ty: tBool}
+			ex.subErrSites = append(ex.subErrSites, name)
+		}
+	}
 	ex.callSiteClauses(name, k, "after", args, rets, instr.Pos())
 }
 
@@ -356,7 +370,7 @@ func (ex *Exec) applyContract(v ssa.Value, fc *FuncContract, cname string, names
 			vc.ctx.contractError(fc, c, err)
 			continue
 		}
-		if !(c.TypeInv && !ex.isTypeInvOwner()) {
+		if !(c.TypeInv && !ex.isTypeInvOwner(c.TypeInvOf)) {
 			ex.oblig("pre@call", c.Label, sn, instr.Pos(), fmt.Sprintf("(=> %s %s)", g, t), []string{ex.prop})
 		}
 		vc.assume(fmt.Sprintf("(=> %s %s)", g, t))
@@ -685,10 +699,10 @@ func (ex *Exec) appendCall(v ssa.Value, cc *ssa.CallCommon) {
 
 // isTypeInvOwner: is the function being verified an owner of any type invariant?
 // (owners must re-establish invariants explicitly before calling out)
-func (ex *Exec) isTypeInvOwner() bool {
+func (ex *Exec) isTypeInvOwner(of string) bool {
 	name := ex.vc.fnName()
 	for _, ti := range ex.vc.ctx.cf.TypeInvs {
-		if ti.Stable {
+		if ti.Stable || (of != "" && ti.Type != of) {
 			continue
 		}
 		for _, o := range ti.Owners {
